@@ -252,7 +252,7 @@ def decodeLoop (step : Step) (input : List UInt8) : Nat → Nat → Outcome (Lis
     let a : Alloc := ⟨4 * outputLen, outputLen⟩
     let r := step outputLen
     match r.reset with
-    | some errno => (.osError errno, [a])
+    | some errno => (.osError errno, [])
     | none =>
       let c := callBoth input.length outputLen r
       match c.rc with
@@ -282,7 +282,7 @@ def encodeLoop (step : Step) (n : Nat) : Nat → Nat → Outcome (List UInt8) ×
     let a : Alloc := ⟨outputLen, outputLen⟩
     let r := step outputLen
     match r.reset with
-    | some errno => (.osError errno, [a])
+    | some errno => (.osError errno, [])
     | none =>
       let c := callBoth (4 * n) outputLen r
       match c.rc with
